@@ -105,6 +105,12 @@ def cases(rng, ctx):
         for op in OPS:
             c = {'kind': 'pair', 'op': op, 'i': i, 'j': j}
             out.append(c)
+            # other routes by which the same host values reach the operator: answered by the host's cell listener (A1, B1), returned
+            # by host functions (GX(), GY()) - an empty text is an empty text, a zero a zero, FALSE a logical
+            falsy = any(isinstance(v, (str, int, float)) and not isinstance(v, list) and (v == '' or (not isinstance(v, str) and v == 0))
+                        for v in (allv[i], allv[j]))
+            if (falsy and rng.random() < 0.5) or rng.random() < 0.08:
+                out.append(dict(c, via=rng.choice(['cell', 'cell', 'fn'])))
             if (i in quoted or j in quoted) or (isinstance(allv[i], str) or isinstance(allv[j], str)) and rng.random() < 0.1:
                 # the text operands written as literals in the formula instead of arriving through variables
                 c2 = dict(c)
@@ -149,9 +155,16 @@ def lit_text(v):
     return None
 
 
+_route = {}
+
+
 def formula_of(c):
     a, b = _vals(c)
     x, y = 'x', 'y'
+    if c.get('via') == 'cell':
+        return 'A1' + c['op'] + 'B1'
+    if c.get('via') == 'fn':
+        return 'GX()' + c['op'] + 'GY()'
     if c.get('lit'):
         x = lit_text(a) or 'x'
         y = lit_text(b) or 'y'
@@ -162,7 +175,8 @@ def request(c):
     a, b = _vals(c)
     if not (modelled(a) and modelled(b)):
         return None
-    return 'eval %s %s' % (common.enc_str(formula_of(c)), fx.env_wire(variables={'x': a, 'y': b}))
+    # (the model sees the operands as variables whatever the route)
+    return 'eval %s %s' % (common.enc_str(formula_of(dict(c, via=None))), fx.env_wire(variables={'x': a, 'y': b}))
 
 
 _p = [None]
@@ -173,12 +187,16 @@ def impl(c):
     import hotxlfp
     if _p[0] is None:
         _p[0] = hotxlfp.Parser()
+        _p[0].on('callCellValue', lambda cell, setter: setter(_route.get(cell.label)))
+        _p[0].set_function('GX', lambda: _route.get('A1'))
+        _p[0].set_function('GY', lambda: _route.get('B1'))
     p = _p[0]
     a, b = _vals(c)
     import copy
     a0, b0 = copy.deepcopy(a), copy.deepcopy(b)
     p.set_variable('x', a)
     p.set_variable('y', b)
+    _route['A1'], _route['B1'] = a, b
     r = p.parse(formula_of(c))
     r['_unchanged'] = (repr(a0) == repr(a) and repr(b0) == repr(b))
     return r
@@ -381,7 +399,8 @@ def oracle(c, impl_ans):
         else:
             ok = check_value(exp, rec['result'])
     if not ok:
-        return 'x%sy with x=%r, y=%r gives %r; the statement gives %r' % (op, a, b, {k: v for k, v in rec.items() if k != '_unchanged'}, exp)
+        how = {'cell': ' (x, y answered by the cell listener: A1, B1)', 'fn': ' (x, y returned by the host functions GX(), GY())'}.get(c.get('via'), '')
+        return 'x%sy with x=%r, y=%r%s gives %r; the statement gives %r' % (op, a, b, how, {k: v for k, v in rec.items() if k != '_unchanged'}, exp)
     # commutativity of + and *
     if op in '+*':
         p = _p[0]
